@@ -87,6 +87,8 @@ func C12(run *vf.Run) {
 	}
 }
 
+func init() { Registry["XSCALE"] = c12Scale } // development entry: the scaled instances alone
+
 // c12Scale replays one scenario shape of the cache family (a repeated name, two rules sharing a
 // transformation prefix, exactly one value satisfying the operator) with the non-matching value
 // repeated K times: in Engine.tla padding with values the operator rejects changes neither the fired
@@ -127,7 +129,7 @@ SecRule REQUEST_HEADERS:x-p "@streq b" "id:3,phase:1,pass,t:lowercase"
 			got := map[int]int{}
 			for _, mr := range tx.MatchedRules() {
 				for _, md := range mr.MatchedDatas() {
-					if md.Value() == "B" {
+					if md.Value() == "B" || md.Value() == "b" { // match data carries the transformed value
 						got[mr.Rule().ID()]++
 					} else {
 						got[-mr.Rule().ID()]++
